@@ -1046,9 +1046,31 @@ class UnitBuilder:
                     j += 1
                 end = j
             return body[li:end + 1]
+        m = re.match(r"^closure_body chain (\w+) after (\w+)(?:#(\d+)| (\d+))?$", anchor)
+        if m:
+            # the first `.METH(` call after the K-th `.AFTER(` call, whose argument is a closure
+            meth, aft, k = m.group(1), m.group(2), int(m.group(3) or m.group(4) or 1)
+            cnt = 0
+            for i, t in enumerate(body):
+                if t.kind == "ident" and t.text == aft and i > 0 and is_p(body[i - 1], ".") and is_p(body[i + 1], "("):
+                    cnt += 1
+                    if cnt == k:
+                        j = match_close(body, i + 1) + 1
+                        if not (is_p(body[j], ".") and body[j + 1].text == meth and is_p(body[j + 2], "(")):
+                            raise Undecided(f"lost anchor: .{aft}( #{k} in {fnq} is not followed by .{meth}(")
+                        return self._closure_body(body, j + 1, fnq)
+            raise Undecided(f"lost anchor: .{aft}( #{k} in {fnq}")
         m = re.match(r"^(match_of|closure_body|expr) chain (\w+)(?:#(\d+)| (\d+))?$", anchor)
         if m:
             kind, meth, k = m.group(1), m.group(2), int(m.group(3) or m.group(4) or 1)
+            if kind == "closure_body":
+                cnt = 0
+                for i, t in enumerate(body):
+                    if t.kind == "ident" and t.text == meth and is_p(body[i + 1], "("):
+                        cnt += 1
+                        if cnt == k:
+                            return self._closure_body(body, i, fnq)
+                raise Undecided(f"lost anchor: {meth}( #{k} in {fnq}")
             lo, hi = locate_lift(body, Lift("chain", meth, k, ""), fnq)
             if kind == "expr":
                 return body[lo:hi + 1]
@@ -1059,24 +1081,37 @@ class UnitBuilder:
                 if not is_p(body[j], "{"):
                     raise Undecided(f"lost anchor: match body after .{meth}( in {fnq}")
                 return body[lo - 1:match_close(body, j) + 1]
-            # closure_body: the call's argument list must be a single closure `|params| body`
+            # closure_body: the (last) closure argument `|params| body` of the K-th call `METH(` / `.METH(`
             cnt = 0
             for i, t in enumerate(body):
-                if t.kind == "ident" and t.text == meth and i > 0 and is_p(body[i - 1], ".") and is_p(body[i + 1], "("):
+                if t.kind == "ident" and t.text == meth and is_p(body[i + 1], "("):
                     cnt += 1
                     if cnt == k:
-                        close = match_close(body, i + 1)
-                        a = i + 2
-                        if body[a].text == "move":
-                            a += 1
-                        if not is_p(body[a], "|"):
-                            raise Undecided(f"lost anchor: argument of .{meth}( #{k} in {fnq} is not a closure")
-                        b = a + 1
-                        while not is_p(body[b], "|"):
-                            b += 1
-                        return body[b + 1:close]
-            raise Undecided(f"lost anchor: .{meth}( #{k} in {fnq}")
+                        return self._closure_body(body, i, fnq)
+            raise Undecided(f"lost anchor: {meth}( #{k} in {fnq}")
         raise Undecided(f"unknown fragment anchor `{anchor}`")
+
+    def _closure_body(self, body: List[Tok], i: int, fnq: str) -> List[Tok]:
+        """body[i] is the method name, body[i+1] the `(`; return the body of the closure that is its last argument"""
+        close = match_close(body, i + 1)
+        a = None
+        d = 0
+        for j in range(i + 2, close):
+            t = body[j]
+            if t.kind == "punct":
+                if t.text in OPEN:
+                    d += 1
+                elif t.text in CLOSE:
+                    d -= 1
+                elif t.text == "|" and d == 0:
+                    a = j
+                    break
+        if a is None:
+            raise Undecided(f"lost anchor: no closure argument in call of {body[i].text} in {fnq}")
+        b = a + 1
+        while not is_p(body[b], "|"):
+            b += 1
+        return body[b + 1:close]
 
     def emit_wrap(self, ws: WrapSpec):
         s = self.source(ws.source)
